@@ -156,11 +156,34 @@ class _Fold(ast.NodeTransformer):
 class _Unroll(ast.NodeTransformer):
     """Unroll `for k in [<string constants>]: body` (literal-key loops)."""
 
-    def __init__(self):
+    def __init__(self, consts=None):
         self.count = 0
+        self.consts = consts or {}      # module-level names bound to a literal key list
+
+    def _elts(self, it):
+        """Constant elements of a literal key list, with module-level key lists and
+        `*NAME` unpackings of them expanded; None if `it` is not such a list."""
+        if isinstance(it, ast.Name) and it.id in self.consts:
+            return list(self.consts[it.id])
+        if not isinstance(it, (ast.List, ast.Tuple)):
+            return None
+        out = []
+        for e in it.elts:
+            if isinstance(e, ast.Starred) and isinstance(e.value, ast.Name) and \
+                    e.value.id in self.consts:
+                out += self.consts[e.value.id]
+            elif isinstance(e, ast.Constant):
+                out.append(e)
+            else:
+                return None
+        return out
 
     def visit_For(self, node):
         self.generic_visit(node)
+        elts = self._elts(node.iter)
+        if elts is not None and not isinstance(node.iter, (ast.List, ast.Tuple)) or (
+                elts is not None and any(isinstance(e, ast.Starred) for e in node.iter.elts)):
+            node.iter = ast.copy_location(ast.List(elts=elts, ctx=ast.Load()), node.iter)
         if (isinstance(node.target, ast.Name) and isinstance(node.iter, (ast.List, ast.Tuple))
                 and node.iter.elts and not node.orelse and
                 all(isinstance(e, ast.Constant) and isinstance(e.value, (str, int))
@@ -186,11 +209,48 @@ class _Unroll(ast.NodeTransformer):
         return node
 
 
-def normalise_function(fn):
+def module_key_lists(tree):
+    """Module-level `NAME = [<str/int constants>]` bound exactly once (and never rebound or
+    mutated by name inside the module): literal key lists shared by several functions."""
+    cands, bad = {}, set()
+    for node in tree.body:
+        if isinstance(node, ast.Assign) and len(node.targets) == 1 and \
+                isinstance(node.targets[0], ast.Name):
+            nm = node.targets[0].id
+            v = node.value
+            if nm in cands:
+                bad.add(nm)
+            if isinstance(v, (ast.List, ast.Tuple)) and v.elts and all(
+                    isinstance(e, ast.Constant) and isinstance(e.value, (str, int)) and
+                    not isinstance(e.value, bool) for e in v.elts):
+                cands[nm] = list(v.elts)
+            else:
+                bad.add(nm)
+    for sub in ast.walk(tree):
+        if isinstance(sub, ast.Name) and isinstance(sub.ctx, (ast.Store, ast.Del)) and \
+                sub.id in cands:
+            # any store other than the defining one disqualifies the name
+            pass
+        if isinstance(sub, (ast.AugAssign,)) and isinstance(sub.target, ast.Name):
+            bad.add(sub.target.id)
+        if isinstance(sub, ast.Call) and isinstance(sub.func, ast.Attribute) and \
+                isinstance(sub.func.value, ast.Name) and sub.func.attr in (
+                    'append', 'extend', 'insert', 'remove', 'pop', 'sort', 'reverse', 'clear'):
+            bad.add(sub.func.value.id)
+        if isinstance(sub, (ast.FunctionDef, ast.AsyncFunctionDef)):
+            for x in ast.walk(sub):
+                if isinstance(x, ast.Name) and isinstance(x.ctx, ast.Store) and x.id in cands:
+                    bad.add(x.id)
+                if isinstance(x, ast.Global):
+                    bad.update(x.names)
+    return {k: v for k, v in cands.items() if k not in bad}
+
+
+def normalise_function(fn, consts=None):
     """Return a normalised deep copy of a FunctionDef and the number of
     literal-key loops unrolled."""
     fn = copy.deepcopy(fn)
-    u = _Unroll()
+    u = _Unroll(consts)
     fn = u.visit(fn)
     fn = _Fold().visit(fn)
     ast.fix_missing_locations(fn)
@@ -432,9 +492,10 @@ def load_program(repo):
                             origin = a.name if isinstance(sub, ast.Import) else '%s.%s' % (
                                 '.' * sub.level + (sub.module or ''), a.name)
                             mod.imports[a.asname or a.name.split('.')[0]] = origin
+        consts = module_key_lists(tree)
         for node in tree.body:
             if isinstance(node, (ast.FunctionDef, ast.AsyncFunctionDef)):
-                norm, k = normalise_function(node)
+                norm, k = normalise_function(node, consts)
                 n_unrolled += k
                 short = modname.split('.', 1)[1] if '.' in modname else modname
                 q = '%s.%s' % (short.split('.')[-1], node.name)
@@ -453,7 +514,7 @@ def load_program(repo):
                 for sub in node.body:
                     if isinstance(sub, (ast.FunctionDef, ast.AsyncFunctionDef)):
                         kind = _kind(sub, True)
-                        norm, k = normalise_function(sub)
+                        norm, k = normalise_function(sub, consts)
                         n_unrolled += k
                         key = sub.name + ('.setter' if kind == 'setter' else '')
                         q = '%s.%s' % (node.name, key)
